@@ -23,10 +23,11 @@ theorem C11_placeholder (cfg : PartCfg) (x : Xml) (attr : String) :
   · intro rid h1 h2; unfold imageRun relTarget; simp only [h1, ok_bind, Dict.getM, h2]; rfl
   · intro h; unfold imageRun relTarget; rw [h]; rfl
 
-/-- the alt-text marker precedes the picture when `wp:docPr` has a description -/
+/-- the alt-text marker precedes the picture when `wp:docPr` has a description (escaped like any
+document text when html is exported) -/
 theorem C11_alt_text (cfg : PartCfg) (x : Xml) (d : Str) (hm : tagMember x.ptag = some "IMAGE_ALT")
     (hd : x.attrGet ⟨none, lit "descr"⟩ = some d) :
-    ownText cfg x = .ok (lit "----Image alt text---->" ++ d ++ ['<'], true) := by
+    ownText cfg x = .ok (lit "----Image alt text---->" ++ (if cfg.html then escapeHtml d else d) ++ ['<'], true) := by
   unfold ownText; simp only [hm, hd]; rfl
 
 /-- **C11: the image map.** For every image relationship whose member exists, the map holds the
